@@ -220,8 +220,11 @@ def run(ctx):
             return
         nfile[0] += 1
         fa, fb = os.path.join(tmpd, f"common{nfile[0]}.dec"), os.path.join(tmpd, f"user{nfile[0]}.dec")
-        open(fa, "w").write(render_doc(doc))
-        open(fb, "w").write(render_doc(user))
+        # a lone `End` line somewhere between the statements of a file (files joined with cat): the line is dropped, what follows
+        # it is read as ever
+        k = rng.randint(1, max(1, len(doc) - 1))
+        open(fa, "w").write(render_doc(doc[:k]) + rng.choice(["End\n", "End\n", "  End # common part\n", ""]) + render_doc(doc[k:]))
+        open(fb, "w").write(rng.choice(["End\n", ""]) + render_doc(user) + rng.choice(["End\n", "End", ""]))
         text3 = render_doc(expand_doc(doc + user + doc))
         case = {"kind": "expansion", "label": "three files: common, user, common", "files": [render_doc(doc), render_doc(user)], "expanded": text3}
         try:
